@@ -3,6 +3,7 @@ package props
 import (
 	"context"
 	"fmt"
+	"sync"
 	"testing/synctest"
 	"time"
 
@@ -41,6 +42,7 @@ type contractorCall struct {
 type recContractor struct {
 	*testutil.EphemeralContractor
 	e     *sim.Env
+	mu    sync.Mutex
 	calls []contractorCall
 	yield func(string)
 	// gate, if set, brackets DebitAccount (C18: blocking handlers)
@@ -49,7 +51,9 @@ type recContractor struct {
 
 func (c *recContractor) rec(call contractorCall) {
 	call.seq = c.e.Step()
+	c.mu.Lock()
 	c.calls = append(c.calls, call)
+	c.mu.Unlock()
 }
 
 func (c *recContractor) AddV2Contract(set rhp4.TransactionSet, u proto4.Usage) error {
@@ -117,6 +121,7 @@ type sectorCall struct {
 type recSectors struct {
 	*testutil.EphemeralSectorStore
 	e     *sim.Env
+	mu    sync.Mutex
 	calls []sectorCall
 	// gate, if set, brackets every call (C18: blocking handlers)
 	gate func(method string) func()
@@ -127,7 +132,9 @@ func (s *recSectors) ReadSector(root types.Hash256, off, l uint64) ([]byte, []ty
 		defer s.gate("ReadSector")()
 	}
 	b, p, err := s.EphemeralSectorStore.ReadSector(root, off, l)
+	s.mu.Lock()
 	s.calls = append(s.calls, sectorCall{seq: s.e.Step(), method: "ReadSector", root: root, err: err})
+	s.mu.Unlock()
 	return b, p, err
 }
 
@@ -136,7 +143,9 @@ func (s *recSectors) StoreSector(root types.Hash256, data *[proto4.SectorSize]by
 		defer s.gate("StoreSector")()
 	}
 	err := s.EphemeralSectorStore.StoreSector(root, data, sub, exp)
+	s.mu.Lock()
 	s.calls = append(s.calls, sectorCall{seq: s.e.Step(), method: "StoreSector", root: root, err: err})
+	s.mu.Unlock()
 	return err
 }
 
